@@ -232,6 +232,9 @@ static void Table_Assign(var self, var obj) {
   /* ask the source first: if it cannot answer (NULL) nothing is cleared */
   var ktype = implements_method(obj, Get, key_type) ? key_type(obj) : Ref;
   var vtype = implements_method(obj, Get, val_type) ? val_type(obj) : Ref;
+  size_t nitems = len(obj);
+  method_at_offset(obj, Iter, offsetof(struct Iter, iter_init), "iter_init");
+  method_at_offset(obj, Get, offsetof(struct Get, get), "get");
 
   Table_Clear(t);
   
@@ -240,7 +243,7 @@ static void Table_Assign(var self, var obj) {
   t->ksize = Table_Size_Round(size(t->ktype));
   t->vsize = Table_Size_Round(size(t->vtype));
   t->nitems = 0;
-  t->nslots = Table_Ideal_Size(len(obj));
+  t->nslots = Table_Ideal_Size(nitems);
   
   if (t->nslots is 0) {
     t->data = NULL;
